@@ -198,7 +198,11 @@ class Run:
 
     def subscribe_datagram(self, g, eps, ttl, via, counter=0, egid=None, service=None):
         fl, sid = self.sess[via].next()
-        ent = net.subscribe(service or SID, 1, MAJ, egid if egid is not None else g, ttl, counter=counter, o1=[ep_ref(i) for i in eps])
+        # the endpoint option(s) sit in the first or in the second option run of the entry
+        refs = [ep_ref(i) for i in eps]
+        self.n_subs = getattr(self, "n_subs", 0) + 1
+        o1, o2 = (refs, []) if self.n_subs % 3 else (refs[:-1], refs[-1:])
+        ent = net.subscribe(service or SID, 1, MAJ, egid if egid is not None else g, ttl, counter=counter, o1=o1, o2=o2)
         self.prot.datagram_received(net.sd_bytes([ent], sid, reboot=fl), via, False)
 
     def do(self, a):
